@@ -30,6 +30,18 @@ func notClaimed() [][2]string {
 func props() []prop {
 	return []prop{
 		{
+			ID: "C07", Level: "exploration",
+			LevelText:   "All sequential call sequences of length <= 4 over {Start, Stop, Stop(t), context cancel} and PRNG scenarios with groups of concurrent calls are executed on real systems (populated with trees in awkward states: restart in progress, paused supervisor, stash content, zombie, an actor held in a handler) inside a synctest bubble. The recorded call/return/result history must be linearizable (porcupine) w.r.t. the ready->started->stopped reference machine; every call must return within its timeout of virtual time (rejections in zero time); after a successful Stop or a cancel nothing may be registered; synctest reports any goroutine of the system left blocked when the scenario ends. An inject tier puts a maximal delay at one statement of Start/stop so that the other calls land inside it. A real-time unit repeats Start/Stop with remoting between two systems and polls the goroutine profile for frames of vivid/go-quartz.",
+			LevelNote:   "Trusted: porcupine, synctest (virtual-time bounds are exact; leftover goroutines are reported by the runtime), the goroutine-profile parser of the real-time unit (bounded polling, stall-gated).",
+			Technique:   "linearizability check of recorded call histories against a reference state machine + virtual-time bounds + goroutine-leak monitor",
+			DesignRef:   "DESIGN.md §4 C07",
+			Assumptions: with("cancelling the system context before Start is not asserted beyond 'no hang'"),
+			Units: []unit{
+				{Check: "startstop", Pkg: "internal/actor", Shards: [2]int{8, 16}, Timeout: [2]time.Duration{6 * min, 40 * min}, CrashKey: "c07-crash", HangKind: "c07-hang", OnlyKinds: []string{"c07-", "harness-"}},
+				{Check: "startstopinject", Pkg: "internal/actor", Instr: []string{"internal/actor/system.go"}, Shards: [2]int{8, 16}, Timeout: [2]time.Duration{6 * min, 40 * min}, CrashKey: "c07-crash", HangKind: "c07-hang", OnlyKinds: []string{"c07-", "harness-"}},
+			},
+		},
+		{
 			ID: "C04", Level: "exploration",
 			LevelText:   "PRNG scenarios of concurrent Asks, scripted responders, timeouts, Close, PipeTo and asker death run on the real futures in a synctest bubble, where 'not before the timeout', 'no later than the first due completion' and 'never completed' are exact; observers in 1-8 goroutines record (value, error, virtual instant); the oracle requires agreement of all observers (one-shot), the future's own first reply, completion at the earliest due candidate with the matching outcome, exactly one PipeResult per forwarder equal to Result(), and an empty future registry afterwards (hooked state). A second unit repeats the scenarios under the race detector (completion vs PipeTo vs timer).",
 			LevelNote:   "Trusted: synctest clock and quiescence; candidate instants are taken at the API boundary (ask processed, reply sent, kill/Close issued). Entrust futures get the one-shot check only through Context.Entrust users (not generated).",
